@@ -1,11 +1,11 @@
 #[cfg(not(feature = "verif-loom"))]
 use std::{
-    sync::atomic::{AtomicU8, AtomicU32, AtomicU64, Ordering},
+    sync::atomic::{AtomicU32, AtomicU64, Ordering},
     time::{Duration, SystemTime, UNIX_EPOCH},
 };
 #[cfg(feature = "verif-loom")]
 use {
-    loom::sync::atomic::{AtomicU8, AtomicU32, AtomicU64, Ordering},
+    loom::sync::atomic::{AtomicU32, AtomicU64, Ordering},
     std::time::Duration,
 };
 
@@ -28,14 +28,25 @@ impl From<u8> for CircuitState {
     }
 }
 
+// The state word holds the CircuitState in its low byte and, above it, the number of
+// probe requests admitted in the current half-open episode. Keeping both in one atomic
+// makes "is the circuit half-open and is there probe budget left" a single decision, so
+// a probe can neither be counted against an episode that already ended nor have its
+// count wiped by a concurrent transition.
+const STATE_MASK: u32 = 0xFF;
+const CALLS_SHIFT: u32 = 8;
+
+fn state_word(state: CircuitState) -> u32 {
+    state as u32
+}
+
 pub struct WriteCircuitBreaker {
-    state: AtomicU8, // Represents CircuitState
+    state: AtomicU32, // CircuitState | half-open call count << CALLS_SHIFT
     failure_count: AtomicU32,
     last_failure_time: AtomicU64,
     last_success_time: AtomicU64,
 
     // Half-open state tracking
-    half_open_call_count: AtomicU32,
     half_open_success_count: AtomicU32,
 
     // Configuration
@@ -53,11 +64,10 @@ impl WriteCircuitBreaker {
         half_open_success_threshold: u32,
     ) -> Self {
         Self {
-            state: AtomicU8::new(CircuitState::Closed as u8),
+            state: AtomicU32::new(state_word(CircuitState::Closed)),
             failure_count: AtomicU32::new(0),
             last_failure_time: AtomicU64::new(0),
             last_success_time: AtomicU64::new(current_timestamp()),
-            half_open_call_count: AtomicU32::new(0),
             half_open_success_count: AtomicU32::new(0),
             failure_threshold,
             recovery_timeout,
@@ -76,25 +86,49 @@ impl WriteCircuitBreaker {
     }
 
     pub fn should_allow_request(&self) -> bool {
-        match self.current_state() {
-            CircuitState::Closed => true,
-            CircuitState::Open => {
-                // Check if enough time has passed to try recovery
-                let now = current_timestamp();
-                let last_failure = self.last_failure_time.load(Ordering::Acquire);
+        loop {
+            let word = self.state.load(Ordering::Acquire);
+            match CircuitState::from((word & STATE_MASK) as u8) {
+                CircuitState::Closed => return true,
+                CircuitState::Open => {
+                    // Check if enough time has passed to try recovery
+                    let now = current_timestamp();
+                    let last_failure = self.last_failure_time.load(Ordering::Acquire);
 
-                if now.saturating_sub(last_failure) >= self.recovery_timeout.as_millis() as u64 {
-                    // Transition to half-open to test recovery
-                    self.transition_to_half_open();
-                    true
-                } else {
-                    false // Still in failure mode
+                    if now.saturating_sub(last_failure)
+                        >= self.recovery_timeout.as_millis() as u64
+                    {
+                        // Transition to half-open to test recovery. Only the caller that
+                        // performs the transition is admitted on this path; one that lost
+                        // the race is judged against the state it lost to.
+                        if self.transition_to_half_open() {
+                            return true;
+                        }
+                    } else {
+                        return false; // Still in failure mode
+                    }
                 }
-            }
-            CircuitState::HalfOpen => {
-                // Allow limited requests to test system recovery
-                let current_calls = self.half_open_call_count.fetch_add(1, Ordering::AcqRel);
-                current_calls < self.half_open_max_calls
+                CircuitState::HalfOpen => {
+                    // Allow limited requests to test system recovery
+                    let current_calls = word >> CALLS_SHIFT;
+                    if current_calls >= self.half_open_max_calls {
+                        return false;
+                    }
+                    // Count the probe only if the episode it was judged against is still
+                    // the current one and nobody else took the slot meanwhile.
+                    if self
+                        .state
+                        .compare_exchange(
+                            word,
+                            word + (1 << CALLS_SHIFT),
+                            Ordering::AcqRel,
+                            Ordering::Acquire,
+                        )
+                        .is_ok()
+                    {
+                        return true;
+                    }
+                }
             }
         }
     }
@@ -146,7 +180,7 @@ impl WriteCircuitBreaker {
 
     pub fn current_state(&self) -> CircuitState {
         let state_value = self.state.load(Ordering::Acquire);
-        CircuitState::from(state_value)
+        CircuitState::from((state_value & STATE_MASK) as u8)
     }
 
     pub fn estimated_recovery_time(&self) -> Option<Duration> {
@@ -181,32 +215,37 @@ impl WriteCircuitBreaker {
     }
 
     fn transition_to_open(&self) {
+        // The call count lives in the state word, so it is reset by the same store
         self.state
-            .store(CircuitState::Open as u8, Ordering::Release);
+            .store(state_word(CircuitState::Open), Ordering::Release);
         // Reset half-open counters
-        self.half_open_call_count.store(0, Ordering::Release);
         self.half_open_success_count.store(0, Ordering::Release);
     }
 
-    fn transition_to_half_open(&self) {
-        // Only transition if we're currently Open
-        let _ = self.state.compare_exchange(
-            CircuitState::Open as u8,
-            CircuitState::HalfOpen as u8,
-            Ordering::AcqRel,
-            Ordering::Acquire,
-        );
-        // Reset half-open counters
-        self.half_open_call_count.store(0, Ordering::Release);
-        self.half_open_success_count.store(0, Ordering::Release);
+    /// Returns true if this call performed the Open -> HalfOpen transition.
+    fn transition_to_half_open(&self) -> bool {
+        // Only transition if we're currently Open; the new episode starts with no calls
+        let won = self
+            .state
+            .compare_exchange(
+                state_word(CircuitState::Open),
+                state_word(CircuitState::HalfOpen),
+                Ordering::AcqRel,
+                Ordering::Acquire,
+            )
+            .is_ok();
+        if won {
+            // Reset half-open counters
+            self.half_open_success_count.store(0, Ordering::Release);
+        }
+        won
     }
 
     fn transition_to_closed(&self) {
         self.state
-            .store(CircuitState::Closed as u8, Ordering::Release);
+            .store(state_word(CircuitState::Closed), Ordering::Release);
         // Reset all counters
         self.failure_count.store(0, Ordering::Release);
-        self.half_open_call_count.store(0, Ordering::Release);
         self.half_open_success_count.store(0, Ordering::Release);
     }
 }
